@@ -8,6 +8,7 @@ import (
 	"os"
 	"runtime"
 	"runtime/debug"
+	"strings"
 
 	art "github.com/Clement-Jean/go-art"
 )
@@ -90,6 +91,7 @@ type Exec struct {
 	tx      uint64 // transcript hash: every observable result of the run
 	stepLog bool
 	inRace  bool
+	noContent bool // this step's result has no defined content (carved-out input): do not compare it
 	// statement points (thorough tier, instrumented copy)
 	pointN     int            // points reached so far by this run
 	pointActs  map[int]string // n-th point -> action
@@ -478,24 +480,24 @@ func (e *Exec) precondition(ts *treeState, s *Step) string {
 			return "kf-nul-prefix-domain"
 		}
 	case "range":
+		// inputs the library gives no meaning (carved out of C03): the call is still
+		// made — caller memory, re-iteration and "changes nothing" apply to it — but
+		// its content is not compared with anything ("nocheck:" prefix)
 		if kt.Kind == "float" && (kt.IsNaNKey(s.K) || kt.IsNaNKey(s.K2)) {
-			return "range-nan-bound"
+			return "nocheck:range-nan-bound"
 		}
 		if kt.Kind == "float" {
 			a, b := fieldToFloat(kt.T, u64of(s.K)), fieldToFloat(kt.T, u64of(s.K2))
 			if a == 0 && b == 0 && u64of(s.K) != u64of(s.K2) {
-				return "range-zero-pair"
+				return "nocheck:range-zero-pair"
 			}
 		}
 		if (kt.Kind == "alpha" || kt.Kind == "collation") && len(s.K2) == 0 {
 			if ts.m.Len() > 0 {
 				p := ts.m.probe(s.K)
 				if ts.m.cmp(&p, &ts.m.es[ts.m.Len()-1]) > 0 {
-					return "range-open-end-start-above-max"
+					return "nocheck:range-open-end-start-above-max"
 				}
-			}
-			if kt.Kind == "collation" && ts.m.Len() == 0 {
-				return "collation-range-empty-tree"
 			}
 		}
 	case "prefix":
@@ -534,9 +536,13 @@ func (e *Exec) collPrefixOK(ts *treeState, p []byte) bool {
 
 func (e *Exec) treeStep(i int, s *Step) (*Violation, bool) {
 	ts := e.trees[s.T]
+	e.noContent = false
 	if why := e.precondition(ts, s); why != "" {
 		e.st.Skipped[why]++
-		return nil, false
+		if !strings.HasPrefix(why, "nocheck:") {
+			return nil, false
+		}
+		e.noContent = true
 	}
 	e.st.Ops[s.Op]++
 	if e.stepLog {
@@ -593,7 +599,7 @@ func (e *Exec) treeStep(i int, s *Step) (*Violation, bool) {
 	mutated := false
 	msg := guard(func() { v, mutated = e.doOp(i, s, ts) })
 	if msg != "" {
-		if e.or&own != 0 || (isSeqOp(s.Op) && e.or&oAbandon != 0) {
+		if (e.or&own != 0 && !e.noContent) || (isSeqOp(s.Op) && e.or&oAbandon != 0) {
 			return e.viol("panic", "returns-normally", i, "tree %d (%s): %s(%x,%x,n=%d) did not return normally: %s", s.T, ts.cfg.Key, s.Op, []byte(s.K), []byte(s.K2), s.N, msg), false
 		}
 		// not this property's obligation: the run cannot continue meaningfully
@@ -824,6 +830,9 @@ func (e *Exec) doSeq(i int, s *Step, ts *treeState) *Violation {
 	if ts.cfg.Key.Kind == "collation" && s.Op == "range" {
 		checkContent = false // carved out of C03; self-consistency only (C14)
 	}
+	if e.noContent {
+		checkContent = false
+	}
 	if checkContent {
 		want := e.expectedSeq(ts, s)
 		what := fmt.Sprintf("%s(%x,%x,n=%d)", s.Op, []byte(s.K), []byte(s.K2), s.N)
@@ -838,6 +847,29 @@ func (e *Exec) doSeq(i int, s *Step, ts *treeState) *Violation {
 	if e.or&oAbandon != 0 {
 		if v := e.checkAbandon(i, s, ts, seq, full); v != nil {
 			return v
+		}
+	}
+	// C13: a returned sequence must not depend on the caller's key buffers any
+	// more — overwrite the buffers this call was given, range again, restore them
+	if e.or&oBuf != 0 {
+		if b := api.Buf(); b != nil && len(b.pend) > 0 {
+			if err := b.check(); err != nil {
+				return e.viol("caller-memory", "C13-no-write", i, "tree %d (%s): %s(%x,%x): %v", s.T, ts.cfg.Key, s.Op, []byte(s.K), []byte(s.K2), err)
+			}
+			flip := func() {
+				for _, a := range b.lastCall {
+					for j := range a {
+						a[j] = ^a[j]
+					}
+				}
+			}
+			flip()
+			again := collectSeq(seq)
+			flip()
+			e.st.Probes["sequence_reranged_after_buffer_overwrite"]++
+			if !pairsEqual(again, full) {
+				return e.viol("caller-memory", "C13-sequence-retains-argument", i, "tree %d (%s): the sequence returned by %s(%x,%x) changed after the caller overwrote the key buffers it had passed: %d element(s) %s before, %d %s after", s.T, ts.cfg.Key, s.Op, []byte(s.K), []byte(s.K2), len(full), fmtPairs(full, 5), len(again), fmtPairs(again, 5))
+			}
 		}
 	}
 	return nil
